@@ -25,7 +25,8 @@ C17 (`Props/C17.lean` proves that `Parser.parse` resets every attribute it reads
 why no "history-free" theorem is stated (it would be vacuous).
 
 Not modelled: Python's recursion limit.  `'if 1 ' * 330 + 'hue 5'` or 1000 nested parentheses make
-the real parser raise `RecursionError`; the model accepts them.
+the real parser run into `RecursionError`, which `Parser.parse` now turns into the rejection
+`Too many nested levels.` (commit 1d8e878; before, the exception escaped); the model accepts them.
 -/
 namespace Bardolph.ParseTok
 open Bardolph
